@@ -208,7 +208,7 @@ pub fn cases(tier: Tier) -> Vec<CCase> {
     }
     // undefined cases must be rejected
     for t in [
-        "1 / 0", "5 / (3 - 3)", "(1 / 0) + 1", "1 + 2 / 0", "99999999999", "0xfffffffff", "077777777777777", "1 << 40", "1 << 32", "1 >> 32", "65536 * 65536", "2147483647 + 1", "-2147483647 - 2", "3 / 0 * 0", "0 ? 1 / 0 : 2", "0x40000000 << 1", "1 << 31", "0x7fffffff << 1", "3 << 30", "(1 << 30) << 1", "0x10000 << 16",
+        "1 / 0", "5 / (3 - 3)", "(1 / 0) + 1", "1 + 2 / 0", "99999999999", "0xfffffffff", "077777777777777", "1 << 40", "1 << 32", "1 >> 32", "65536 * 65536", "2147483647 + 1", "-2147483647 - 2", "3 / 0 * 0", "0 ? 1 / 0 : 2", "(-2147483647 - 1) / -1", "(-2147483647 - 1) * -1", "0x40000000 << 1", "1 << 31", "0x7fffffff << 1", "3 << 30", "(1 << 30) << 1", "0x10000 << 16",
     ] {
         v.push(CCase { pos: Pos::MustReject, e: lit(0), text: Some(t.to_string()) });
     }
